@@ -434,4 +434,129 @@ Section Resize.
     - (* the Infallible mode panics / aborts *)
       destruct er; cbn [fwc_post] in Hpost; try contradiction; exact Hpost.
   Qed.
+
+  (* ---------------------------------------------------------------------------------------- *)
+  (* the cases, one by one                                                                      *)
+  (* ---------------------------------------------------------------------------------------- *)
+  Section Cases.
+    Variable t : table T.
+    Variables (cap : Z) (alloc_refuses : bool) (f : fallibility).
+    Hypothesis Hsafe : SafeWF B T t.
+    Hypothesis HA : mask t = 0 \/ Allocated B T tsize talign t.
+    Hypothesis Hcap : (items t <= cap < 2 ^ 64)%Z.
+
+    Local Notation RESIZE := (resize_inner B T tsize talign hasher t cap alloc_refuses f).
+
+    (* R1, totality: no undefined behaviour, no fuel exhaustion, no other panic; the only
+       failures are the capacity-overflow panic and the allocation abort of the Infallible mode *)
+    Theorem resize_inner_total :
+      (exists t' evs tr unw, RESIZE = Ok (t', evs, tr, unw)) \/
+      (RESIZE = Fail PanicCapacityOverflow /\ f = Infallible /\ overflow_cond B tsize talign cap) \/
+      (RESIZE = Fail AbortAlloc /\ f = Infallible /\ alloc_refuses = true /\
+       exists len al, alloc_fail_cond B tsize talign cap len al /\ ValidLayout len al).
+    Proof.
+      pose proof (resize_inner_spec t cap alloc_refuses f Hsafe HA Hcap) as H.
+      destruct RESIZE as [[[[t' evs] tr] unw]|er].
+      - left. exists t', evs, tr, unw. reflexivity.
+      - right. destruct er; cbn [resize_post] in H; try contradiction.
+        + left. split; [reflexivity|exact H].
+        + right. split; [reflexivity|exact H].
+    Qed.
+
+    Corollary resize_inner_fallible_total : f = Fallible -> exists r, RESIZE = Ok r.
+    Proof.
+      intros Hf. destruct resize_inner_total as [(t' & evs & tr & unw & E) | [(_ & Hi & _) | (_ & Hi & _)]];
+        [eexists; exact E|congruence|congruence].
+    Qed.
+
+    (* R1 (a): an error code means that nothing happened (C12) *)
+    Theorem resize_inner_error t' evs tr unw :
+      RESIZE = Ok (t', evs, tr, unw) -> tr <> TR_ok ->
+      unw = false /\ t' = t /\ evs = [] /\ f = Fallible /\
+      match tr with
+      | TR_ok => False
+      | TR_capacity_overflow => overflow_cond B tsize talign cap
+      | TR_alloc_error len al =>
+          alloc_refuses = true /\ alloc_fail_cond B tsize talign cap len al /\ ValidLayout len al
+      end.
+    Proof.
+      intros E Htr. pose proof (resize_inner_spec t cap alloc_refuses f Hsafe HA Hcap) as H.
+      rewrite E in H. destruct tr; [contradiction| |]; cbn [resize_post] in H.
+      - destruct H as (H1 & H2 & H3 & H4 & H5). repeat (split; [assumption|]). exact H5.
+      - destruct H as (H1 & H2 & H3 & H4 & H5). repeat (split; [assumption|]). exact H5.
+    Qed.
+
+    (* R1 (b): the hasher panicked: contents unchanged, the new block is freed again (C04).
+       This case needs an occupant, hence cap <> 0: there is always a block to free. *)
+    Theorem resize_inner_unwind t' evs tr :
+      RESIZE = Ok (t', evs, tr, true) ->
+      tr = TR_ok /\ t' = t /\ (exists e, In e (occupants T t) /\ hasher e = None) /\
+      cap <> 0%Z /\ alloc_refuses = false /\
+      exists len al, evs = [EvAlloc len al; EvFree len al] /\ ValidLayout len al.
+    Proof.
+      intros E. pose proof (resize_inner_spec t cap alloc_refuses f Hsafe HA Hcap) as H.
+      rewrite E in H. destruct tr; cbn [resize_post] in H.
+      - split; [reflexivity|exact H].
+      - destruct H as (H1 & _). discriminate H1.
+      - destruct H as (H1 & _). discriminate H1.
+    Qed.
+
+    (* R1 (c) *)
+    Theorem resize_inner_ok t' evs :
+      RESIZE = Ok (t', evs, TR_ok, false) ->
+      (forall e, In e (occupants T t) -> hasher e <> None) /\
+      SafeWF B T t' /\ Permutation (occupants T t') (occupants T t) /\ items t' = items t /\
+      (cap <= capacity T t')%Z /\ (cap <= items t' + growth_left t')%Z /\
+      NoDel t' /\ (items t' + growth_left t' = z_cap (mask t'))%Z /\
+      (mask t' = 0 <-> cap = 0%Z) /\
+      exists alloc_evs free_evs, evs = alloc_evs ++ free_evs /\
+        AllocNew cap alloc_refuses t' alloc_evs /\ FreeOld t free_evs.
+    Proof.
+      intros E. pose proof (resize_inner_spec t cap alloc_refuses f Hsafe HA Hcap) as H.
+      rewrite E in H. cbn [resize_post] in H.
+      destruct H as (Hall & (Hs' & _) & Hperm & Hit & Hc & Hnd & Hgl & aevs & fevs & Eevs & Hal & Hfr).
+      split; [exact Hall|]. split; [exact Hs'|]. split; [exact Hperm|]. split; [exact Hit|].
+      split; [exact Hc|]. split; [rewrite <- (capacity_eq B T t' Hs'); exact Hc|].
+      split; [exact Hnd|]. split; [lia|].
+      split.
+      { destruct Hal as [(Hc0 & -> & _) | (Hnz & _ & (Hm & _) & _)].
+        - split; [intros _; exact Hc0|reflexivity].
+        - split; [intros Hm0; contradiction|intros Hc0; contradiction]. }
+      exists aevs, fevs. split; [exact Eevs|]. split; assumption.
+    Qed.
+
+    (* which of (b) and (c) happens when the allocation succeeds *)
+    Corollary resize_inner_ok_iff t' evs unw :
+      RESIZE = Ok (t', evs, TR_ok, unw) ->
+      (unw = false <-> forall e, In e (occupants T t) -> hasher e <> None).
+    Proof.
+      intros E. destruct unw.
+      - destruct (resize_inner_unwind t' evs TR_ok E) as (_ & _ & (e & Hin & He) & _).
+        split; [discriminate|]. intros Hall. exfalso. exact (Hall e Hin He).
+      - destruct (resize_inner_ok t' evs E) as (Hall & _). split; [intros _; exact Hall|reflexivity].
+    Qed.
+
+    (* R2: the new table is well-formed for the hash function (given extensionally) *)
+    Theorem resize_inner_WF (h : T -> option Z) t' evs :
+      (forall e, hasher e = h e) ->
+      RESIZE = Ok (t', evs, TR_ok, false) -> WF B T h t'.
+    Proof.
+      intros Hext E. pose proof (resize_inner_spec t cap alloc_refuses f Hsafe HA Hcap) as H.
+      rewrite E in H. cbn [resize_post] in H. destruct H as (_ & (Hs' & HT & HR) & _).
+      split; [exact Hs'|]. split.
+      - intros i e hash Hi He Hh. rewrite <- Hext in Hh. exact (HT i e hash Hi He Hh).
+      - intros i e hash Hi He Hh. rewrite <- Hext in Hh. exact (HR i e hash Hi He Hh).
+    Qed.
+  End Cases.
 End Resize.
+
+Print Assumptions move_step.
+Print Assumptions resize_loop_spec.
+Print Assumptions resize_inner_spec.
+Print Assumptions resize_inner_total.
+Print Assumptions resize_inner_fallible_total.
+Print Assumptions resize_inner_error.
+Print Assumptions resize_inner_unwind.
+Print Assumptions resize_inner_ok.
+Print Assumptions resize_inner_ok_iff.
+Print Assumptions resize_inner_WF.
